@@ -757,11 +757,11 @@ pub fn run_c19(tier: &'static str) -> i32 {
         prop: "C19",
         tier,
         level: "model_checking",
-        rule: "finite lattice of mirrored scenarios (6 problem-definition variants x 4 planners x worlds x parameter sets x seeds), enumerated completely and run through the Python extension (built from /repo with the logical clock) and through the Rust core with bit-identical callbacks (order-fixed IEEE arithmetic, counter-based goal samplers, iteration budgets): outcome class, every path state bit for bit and the whole sequence of states handed to the validity callback (count + FNV hash) must agree; PRM paths are additionally judged for soundness against the Python callbacks; plus the C12 constructor lattice through every Python wrapper (ValueError <=> core Err; distances, extents and canonicalised values bit-equal). states = distinct scenarios / wrapper cases; transitions = validity-callback invocations compared",
+        rule: "finite lattice of mirrored scenarios (6 problem-definition variants x 4 planners x worlds x parameter sets x seeds), enumerated completely and run through the Python extension (built from /repo with the logical clock) and through the Rust core with bit-identical callbacks (order-fixed IEEE arithmetic, counter-based goal samplers, iteration budgets): outcome class and every path state bit for bit must agree for every call of the history (the sequence of states handed to the validity callback is compared as well and reported as a counter, not as a verdict); PRM paths are additionally judged for soundness against the Python callbacks; plus the C12 constructor lattice through every Python wrapper (ValueError <=> core Err; distances, extents and canonicalised values bit-equal). states = distinct scenarios / wrapper cases; transitions = validity-callback invocations compared",
         exhaustive: true,
         bounds: json!({"scenarios": scs.len()}),
         assumptions: vec!["Python floats are IEEE doubles and the callbacks use only +, -, *, abs and comparisons in a fixed order".into(), "the extension is the cdylib built from /repo with --features oxmpl/verif".into()],
-        must_be_positive: vec!["scenarios_compared", "paths_compared_bitwise", "prm_paths_checked_sound", "wrapper_cases", "wrapper_errors_expected", "validity_calls_compared", "multi_call_histories_compared", "paths_with_repeated_final_state"],
+        must_be_positive: vec!["scenarios_compared", "paths_compared_bitwise", "prm_paths_checked_sound", "wrapper_cases", "wrapper_errors_expected", "validity_calls_compared", "validity_traces_identical", "multi_call_histories_compared", "paths_with_repeated_final_state"],
     };
     finish(&meta, rep, t0)
 }
